@@ -183,17 +183,44 @@ def volRevolve (pi : Rat) (rz : List Pt) (scale : Rat) : Rat :=
 def volRevolveChecked (pi : Rat) (rz : List Pt) (scale : Rat) : Option Rat :=
   if rz.length ≥ 3 ∧ rz.all (fun p => decide (0 ≤ p.1)) then some (volRevolve pi rz scale) else none
 
+/-- the body of `get_volume` after centring: the upper half (`contour_right`, negative radii
+moved onto the axis) and the mirrored, reversed lower half are revolved and averaged; `cr` are the
+radii, `cz` the axial coordinates handed to `vol_revolve` -/
+def halves (pi : Rat) (cr cz : List Rat) (pix : Rat) : Rat :=
+  let right := cr.map (fun r => if r < 0 then 0 else r)
+  let left := cr.map (fun r => -(if r > 0 then 0 else r))
+  let volRight := volRevolve pi (List.zip right cz) pix
+  let volLeft := volRevolve pi (List.zip left.reverse cz.reverse) pix
+  (volRight + volLeft) / 2
+
 /-- `get_volume(cont, pos_x, pos_y, pix)` for one contour (list of `(x, y)` in pixels);
 `none` = NaN (fewer than four points). `fix_orientation=False`. -/
 def getVolume (pi : Rat) (cont : List Pt) (posx posy pix : Rat) : Option Rat :=
   if cont.length ≥ 4 then
     let cx := cont.map (fun p => p.1 - posx / pix)      -- contour_x  (= z)
     let cr := cont.map (fun p => p.2 - posy / pix)      -- contour_y  (= r)
-    let right := cr.map (fun r => if r < 0 then 0 else r)
-    let left := cr.map (fun r => -(if r > 0 then 0 else r))
-    let volRight := volRevolve pi (List.zip right cx) pix
-    let volLeft := volRevolve pi (List.zip left.reverse cx.reverse) pix
-    some ((volRight + volLeft) / 2)
+    some (halves pi cr cx pix)
+  else none
+
+/-- `get_volume(…, fix_orientation=True)` after F35. `cw` is the outcome of the orientation test
+of `counter_clockwise` (`np.average(np.diff(np.unwrap(np.arctan2(z, r)))) < 0`, a parameter of
+the model): a clockwise contour is traversed backwards, radii *and* axial coordinates. -/
+def getVolumeFix (pi : Rat) (cont : List Pt) (posx posy pix : Rat) (cw : Bool) : Option Rat :=
+  if cont.length ≥ 4 then
+    let cx := cont.map (fun p => p.1 - posx / pix)
+    let cr := cont.map (fun p => p.2 - posy / pix)
+    let rz := if cw then (cr.reverse, cx.reverse) else (cr, cx)     -- counter_clockwise(r, z)
+    some (halves pi rz.1 rz.2 pix)
+  else none
+
+/-- `get_volume(…, fix_orientation=True)` before F35: the reversed radii were revolved along the
+*un-reversed* `contour_x` -/
+def getVolumeFixOld (pi : Rat) (cont : List Pt) (posx posy pix : Rat) (cw : Bool) : Option Rat :=
+  if cont.length ≥ 4 then
+    let cx := cont.map (fun p => p.1 - posx / pix)
+    let cr := cont.map (fun p => p.2 - posy / pix)
+    let rz := if cw then (cr.reverse, cx.reverse) else (cr, cx)
+    some (halves pi rz.1 cx pix)
   else none
 
 /-! ## 3. brightness (`get_bright`, `get_bright_bc`, `get_bright_perc`) -/
